@@ -1,92 +1,523 @@
-import ShroudVerif.Model.Decl
 /-!
-# Name lookup through nested scopes
+# Model of `shroud/util.py: Scope`, of the option/format scopes built by
+`shroud/ast.py` for library / namespace / class / block / function nodes, of
+the inline-attribute parser `declast.Parser.attribute` plus the `attrs`/`fattrs`
+merge, and of the `--option` / `--language` merge in `main.main_with_args`.
 
-`unqualified_lookup` of `ast.LibraryNode`, `NamespaceNode`, `ClassNode`, `BlockNode` /
-`FunctionNode` (delegating scopes) and `declast.Template`: the declaration parser asks the
-scope it parses in for every type name.  A scope is modelled by its chain of enclosing
-scopes, innermost first:
-
-* library: own symbols, then the members (`qualified_lookup`) of each namespace named in a
-  using-directive; nothing further out;
-* namespace: own symbols, then a full lookup from each namespace named in a using-directive,
-  then the enclosing scope;
-* class / template parameter list: own symbols, then the enclosing scope;
-* block / function: the enclosing scope.
-
-`Chain.visible` flattens a chain into the symbol list of an `Env` (innermost first), which
-is what the declaration model (`Model/Decl.lean`) takes as given.
+Core Lean only.  Keys are interned `Nat`s (the two name-mangled slots
+`_Scope__parent` / `_Scope__hidden` are outside the key domain).
 -/
-namespace Shroud.Decl
-open Shroud
+namespace Shroud.Scope
 
-inductive ScopeKind where
-  | library | namespace | cls | delegate
-  deriving DecidableEq, Repr, Inhabited
+/-! ## Python `dict` with insertion order -/
 
-/-- a scope with the scopes around it: `cons kind symbols using outer` -/
-inductive Chain where
-  | nil
-  | cons (kind : ScopeKind) (symbols : List (Str × Sym)) (using : List Chain) (outer : Chain)
-  deriving Repr, Inhabited
+abbrev Dict (β : Type) := List (Nat × β)
 
-def Chain.ownSymbols : Chain → List (Str × Sym)
-  | .nil => []
-  | .cons _ s _ _ => s
+def dget {β} : Dict β → Nat → Option β
+  | [], _ => none
+  | (k', v) :: r, k => if k' = k then some v else dget r k
 
-/-- first hit of `f` over a list (the `for ns in self.using:` loops) -/
-def firstSome {α β} (f : α → Option β) : List α → Option β
-  | [] => none
-  | a :: t => match f a with | some b => some b | none => firstSome f t
+def dhas {β} (d : Dict β) (k : Nat) : Bool := (dget d k).isSome
 
-mutual
-/-- `<scope>.unqualified_lookup(name)` -/
-def Chain.lookup (name : Str) : Chain → Option Sym
-  | .nil => none
-  | .cons kind syms using outer =>
-    match kind with
-    | .delegate => outer.lookup name
-    | .cls =>
-      match assoc name syms with
-      | some s => some s
-      | none => outer.lookup name
-    | .namespace =>
-      match assoc name syms with
-      | some s => some s
+/-- `d[k] = v`: an existing key keeps its position, a new key goes last. -/
+def dset {β} : Dict β → Nat → β → Dict β
+  | [], k, v => [(k, v)]
+  | (k', v') :: r, k, v => if k' = k then (k', v) :: r else (k', v') :: dset r k v
+
+/-- `del d[k]` (only called when present; a no-op otherwise) -/
+def ddel {β} : Dict β → Nat → Dict β
+  | [], _ => []
+  | (k', v') :: r, k => if k' = k then r else (k', v') :: ddel r k
+
+/-- `d.update(e)` -/
+def dupdate {β} (d : Dict β) (e : List (Nat × β)) : Dict β :=
+  e.foldl (fun acc kv => dset acc kv.1 kv.2) d
+
+/-! ## `util.Scope` as a heap of frames
+
+A `Scope` object holds a reference to its parent (`None` or another `Scope`)
+and its instance `__dict__`.  `clone` and `reparent` make identity matter, so
+scopes live in a heap and are named by their index. -/
+
+structure Frame where
+  parent : Option Nat
+  locals : Dict Nat
+deriving Repr, DecidableEq
+
+abbrev Heap := List Frame
+
+inductive Look where
+  | found (v : Nat)
+  | missing          -- AttributeError
+  | recursion        -- RecursionError (a parent cycle made by `reparent`)
+deriving Repr, DecidableEq
+
+/-- `Scope.__getattr__` preceded by the normal instance-dict lookup.
+    `fuel` bounds the parent walk; `getattr` supplies `heap.length + 1`,
+    which suffices for every acyclic chain. -/
+def look (h : Heap) : Nat → Nat → Nat → Look
+  | 0, _, _ => .recursion
+  | fuel + 1, i, k =>
+    match h[i]? with
+    | none => .missing
+    | some fr =>
+      match dget fr.locals k with
+      | some v => .found v
       | none =>
-        match lookupUsing name using with
-        | some s => some s
-        | none => outer.lookup name
-    | .library =>
-      match assoc name syms with
-      | some s => some s
-      | none => firstSome (fun u => assoc name u.ownSymbols) using
-/-- `for ns in self.using: item = ns.unqualified_lookup(name)` of a namespace -/
-def lookupUsing (name : Str) : List Chain → Option Sym
+        match fr.parent with
+        | none => .missing
+        | some p => look h fuel p k
+
+def getattr (h : Heap) (i k : Nat) : Look := look h (h.length + 1) i k
+
+/-- `hasattr(self, k)` / `k in self`: Python 3 `hasattr` swallows only
+    `AttributeError`, a `RecursionError` propagates. -/
+def contains (h : Heap) (i k : Nat) : Look := getattr h i k
+
+/-- `Scope(parent, **kw)` -/
+def new (h : Heap) (parent : Option Nat) (kw : List (Nat × Nat)) : Heap × Nat :=
+  (h ++ [{ parent := parent, locals := dupdate [] kw }], h.length)
+
+def modify (h : Heap) (i : Nat) (f : Frame → Frame) : Heap :=
+  match h[i]? with
+  | none => h
+  | some fr => h.set i (f fr)
+
+/-- `setattr(self, k, v)` -/
+def setattr (h : Heap) (i k v : Nat) : Heap :=
+  modify h i (fun fr => { fr with locals := dset fr.locals k v })
+
+def inlocal (h : Heap) (i k : Nat) : Bool :=
+  match h[i]? with
+  | none => false
+  | some fr => dhas fr.locals k
+
+/-- `setdefault(k, v)`: looks at the local dictionary only. Returns the heap
+    and the returned value. -/
+def setdefault (h : Heap) (i k v : Nat) : Heap × Nat :=
+  match h[i]? with
+  | none => (h, v)
+  | some fr =>
+    match dget fr.locals k with
+    | some w => (h, w)
+    | none => (h.set i { fr with locals := dset fr.locals k v }, v)
+
+/-- `update(d, replace)`; with `replace=False` a key is set only when
+    `hasattr` (through the parents) is false.  A `RecursionError` from
+    `hasattr` aborts the loop (flag `false`); what was set before stays. -/
+def update (h : Heap) (i : Nat) (replace : Bool) : List (Nat × Nat) → Heap × Bool
+  | [] => (h, true)
+  | (k, v) :: r =>
+    if replace then update (setattr h i k v) i replace r
+    else match getattr h i k with
+      | .found _ => update h i replace r
+      | .missing => update (setattr h i k v) i replace r
+      | .recursion => (h, false)
+
+/-- `eval_template` / `set_fmt_default`: "set unless already set locally" -/
+def setUnlessLocal (h : Heap) (i k v : Nat) : Heap :=
+  if inlocal h i k then h else setattr h i k v
+
+def delattrs (h : Heap) (i : Nat) (ks : List Nat) : Heap :=
+  modify h i (fun fr => { fr with locals := ks.foldl ddel fr.locals })
+
+/-- `clone()`: new scope, same parent, copy of the local dictionary -/
+def clone (h : Heap) (i : Nat) : Heap × Nat :=
+  match h[i]? with
+  | none => (h, h.length)
+  | some fr => (h ++ [{ parent := fr.parent, locals := fr.locals }], h.length)
+
+def reparent (h : Heap) (i : Nat) (p : Option Nat) : Heap :=
+  modify h i (fun fr => { fr with parent := p })
+
+/-- `get(k, default)` -/
+def get (h : Heap) (i k dflt : Nat) : Look :=
+  match getattr h i k with
+  | .missing => .found dflt
+  | r => r
+
+/-! ### `ClassNode.clone`: instantiating a class template
+
+`new.fmtdict = self.fmtdict.clone()`, then every function is cloned and its
+scope re-attached: directly under the new class when its parent is the old
+class scope (or `None`), otherwise under a clone of its parent (a `block:`
+scope), cloned once (`cloned` memo) and itself re-attached the same way. -/
+
+def memoGet (cl : List (Nat × Nat)) (k : Nat) : Option Nat :=
+  match cl with
   | [] => none
-  | u :: us =>
-    match u.lookup name with
-    | some s => some s
-    | none => lookupUsing name us
-end
+  | (a, b) :: r => if a = k then some b else memoGet r k
 
-mutual
-/-- the symbols a scope sees, in lookup order (innermost first) -/
-def Chain.visible : Chain → List (Str × Sym)
+def rehome : Nat → Heap → List (Nat × Nat) → Nat → Nat → Nat → Heap × List (Nat × Nat)
+  | 0, h, cl, _, _, _ => (h, cl)
+  | fuel + 1, h, cl, s, oldTop, newTop =>
+    match h[s]? with
+    | none => (h, cl)
+    | some fr =>
+      match fr.parent with
+      | none => (reparent h s (some newTop), cl)
+      | some p =>
+        if p = oldTop then (reparent h s (some newTop), cl)
+        else match memoGet cl p with
+          | some c => (reparent h s (some c), cl)
+          | none =>
+            let (h1, c) := clone h p
+            let (h2, cl2) := rehome fuel h1 ((p, c) :: cl) c oldTop newTop
+            (reparent h2 s (some c), cl2)
+
+/-- returns the heap, the id of the new class scope and the ids of the new function scopes -/
+def cloneClass (h : Heap) (cls : Nat) (fns : List Nat) : Heap × Nat × List Nat :=
+  let (h1, ncls) := clone h cls
+  let step := fun (acc : Heap × List (Nat × Nat) × List Nat) (f : Nat) =>
+    let (hh, cl, out) := acc
+    let (h2, nf) := clone hh f
+    let (h3, cl3) := rehome (h2.length + 1) h2 cl nf cls ncls
+    (h3, cl3, out ++ [nf])
+  let (hf, _, out) := fns.foldl step (h1, [], [])
+  (hf, ncls, out)
+
+/-! ### the chain view: the list of local dictionaries from a scope outwards -/
+
+def lookupChain {β} : List (Dict β) → Nat → Option β
+  | [], _ => none
+  | d :: r, k => match dget d k with
+    | some v => some v
+    | none => lookupChain r k
+
+/-- the parent chain of scope `i`, innermost first (fuel-bounded) -/
+def chain (h : Heap) : Nat → Nat → List (Dict Nat)
+  | 0, _ => []
+  | fuel + 1, i =>
+    match h[i]? with
+    | none => []
+    | some fr => fr.locals :: (match fr.parent with
+        | none => []
+        | some p => chain h fuel p)
+
+/-! ## Option / format scopes of the declaration tree
+
+First-child / next-sibling encoding of the `declarations:` lists of a YAML
+description.  A `fn` is a `FunctionNode`; a `scope` is a `NamespaceNode`,
+`ClassNode` or `BlockNode` with its own nested declarations.  Each node
+carries the `options:` dictionary written on it (the `format:` dictionary is
+handled by the same functions, instantiated a second time). -/
+
+inductive Kind where
+  | ns | cls | block
+deriving Repr, DecidableEq
+
+inductive Decls (β : Type) where
+  | nil
+  | fn (name : Nat) (o : Dict β) (rest : Decls β)
+  | scope (kind : Kind) (o : Dict β) (body : Decls β) (rest : Decls β)
+deriving Repr
+
+/-- What every `__init__` does: `Scope(parent.options)` then
+    `update(options, replace=True)`.  The chain seen from each function, in
+    the order the functions are created (`add_declarations` is a pre-order
+    walk).  The YAML loader hands over Python dicts, so a node's dictionary
+    has unique keys and `update` into the fresh scope reproduces it
+    (`dupdate_nil_of_unique`); `build` below does the `update` literally. -/
+def views {β} (ctx : List (Dict β)) : Decls β → List (List (Dict β))
   | .nil => []
-  | .cons kind syms using outer =>
-    match kind with
-    | .delegate => outer.visible
-    | .cls => syms ++ outer.visible
-    | .namespace => syms ++ (visibleUsing using ++ outer.visible)
-    | .library => syms ++ (using.map Chain.ownSymbols).flatten
-def visibleUsing : List Chain → List (Str × Sym)
-  | [] => []
-  | u :: us => u.visible ++ visibleUsing us
-end
+  | .fn _ o rest => (o :: ctx) :: views ctx rest
+  | .scope _ o body rest => views (o :: ctx) body ++ views ctx rest
 
-/-- the environment the declaration parser works in when it parses inside the scope -/
-def Chain.toEnv (c : Chain) (types : List TypeInfo) (canon : List (Str × Str)) : Env :=
-  { globals := c.visible, usingNs := [], types := types, canon := canon }
+/-- `library.options = default_options(); update(options)`: chains of all
+    functions of a library whose (already merged) top dictionary is `top` -/
+def libViews {β} (top : Dict β) (d : Decls β) : List (List (Dict β)) := views [top] d
 
-end Shroud.Decl
+/-- The same construction on the heap, in the real creation order: returns
+    the heap and, per created node, `(isFunction, scope id)`. -/
+def build (parent : Nat) : Decls Nat → Heap → List (Bool × Nat) → Heap × List (Bool × Nat)
+  | .nil, h, acc => (h, acc)
+  | .fn _ o rest, h, acc =>
+    let (h1, i) := new h (some parent) []
+    let h2 := (update h1 i true o).1
+    build parent rest h2 (acc ++ [(true, i)])
+  | .scope _ o body rest, h, acc =>
+    let (h1, i) := new h (some parent) []
+    let h2 := (update h1 i true o).1
+    let (h3, acc3) := build i body h2 (acc ++ [(false, i)])
+    build parent rest h3 acc3
+
+def buildLib (top : Dict Nat) (d : Decls Nat) : Heap × List (Bool × Nat) :=
+  build 0 d [{ parent := none, locals := top }] [(false, 0)]
+
+/-- Sibling append: splice the body of a block in front of what follows. -/
+def Decls.append {β} : Decls β → Decls β → Decls β
+  | .nil, t => t
+  | .fn n o rest, t => .fn n o (append rest t)
+  | .scope kd o body rest, t => .scope kd o body (append rest t)
+
+/-- The function list (`parent.functions`) a sequence of declarations is
+    appended to: a `BlockNode` shares its parent's lists, a namespace or class
+    has its own.  (`flatten_namespace` is not modelled.) -/
+def parentList {β} : Decls β → List Nat
+  | .nil => []
+  | .fn n _ rest => n :: parentList rest
+  | .scope .block _ body rest => parentList body ++ parentList rest
+  | .scope _ _ _ rest => parentList rest
+
+/-- set `k := v` in the options of every function of the sequence (nested ones too) -/
+def setAll {β} (k : Nat) (v : β) : Decls β → Decls β
+  | .nil => .nil
+  | .fn n o rest => .fn n (dset o k v) (setAll k v rest)
+  | .scope kd o body rest => .scope kd o (setAll k v body) (setAll k v rest)
+
+/-- set `k := v` on every function that does not already see a nearer definition -/
+def push {β} (k : Nat) (v : β) : Decls β → Decls β
+  | .nil => .nil
+  | .fn n o rest => .fn n (if dhas o k then o else dset o k v) (push k v rest)
+  | .scope kd o body rest =>
+    .scope kd o (if dhas o k then body else push k v body) (push k v rest)
+
+/-- does any node of the sequence write `k` locally? -/
+def defines {β} (k : Nat) : Decls β → Bool
+  | .nil => false
+  | .fn _ o rest => dhas o k || defines k rest
+  | .scope _ o body rest => dhas o k || defines k body || defines k rest
+
+/-- Addressing a declaration: `next` skips a sibling, `down` enters the body
+    of the scope at the head. -/
+inductive Step where
+  | next | down
+deriving Repr, DecidableEq
+
+/-- apply `g` to the sibling sequence that starts at the addressed declaration -/
+def atPath {β} : List Step → (Decls β → Decls β) → Decls β → Decls β
+  | [], g, d => g d
+  | .next :: p, g, .fn n o rest => .fn n o (atPath p g rest)
+  | .next :: p, g, .scope kd o body rest => .scope kd o body (atPath p g rest)
+  | .down :: p, g, .scope kd o body rest => .scope kd o (atPath p g body) rest
+  | _, _, d => d
+
+/-- customisation written on the container at the head -/
+def onContainer {β} (k : Nat) (v : β) : Decls β → Decls β
+  | .scope kd o body rest => .scope kd (dset o k v) body rest
+  | d => d
+
+/-- the same customisation written on every member of the container at the head -/
+def onMembers {β} (k : Nat) (v : β) : Decls β → Decls β
+  | .scope kd o body rest => .scope kd o (setAll k v body) rest
+  | d => d
+
+/-- ... on every member that has no nearer definition -/
+def onMembersPush {β} (k : Nat) (v : β) : Decls β → Decls β
+  | .scope kd o body rest => .scope kd o (push k v body) rest
+  | d => d
+
+/-- replace the block at the head by its declarations -/
+def unblock {β} : Decls β → Decls β
+  | .scope .block _ body rest => body.append rest
+  | d => d
+
+/-- the same, only for a block that carries no options (`- block: True`) -/
+def unblockEmpty {β} : Decls β → Decls β
+  | .scope .block [] body rest => body.append rest
+  | d => d
+
+/-! ## Inline attributes (`declast.Parser.attribute`) and `attrs` / `fattrs` -/
+
+inductive TT where
+  | plus | ident | lparen | rparen | equals | integer | real | dquote | squote | eof | other
+deriving Repr, DecidableEq
+
+structure Tok where
+  typ : TT
+  val : List Char
+deriving Repr, DecidableEq
+
+inductive AVal where
+  | tru                      -- `True`
+  | str (s : List Char)      -- text (parenthesised, quoted or identifier)
+  | int (digits : List Char) -- `int(text)`
+  | flt (text : List Char)   -- `float(text)`
+  | none                     -- `None`
+deriving Repr, DecidableEq
+
+inductive PRes (α : Type) where
+  | ok (a : α)
+  | error (msg : String)     -- RuntimeError raised by the parser
+deriving Repr, DecidableEq
+
+/-- current token: the tokenizer yields `EOF` for ever once exhausted -/
+def cur : List Tok → Tok
+  | [] => ⟨.eof, []⟩
+  | t :: _ => t
+
+/-- collect token texts up to the balancing `)`; `depth` counts open parens -/
+def collectParen : List Tok → Nat → List (List Char) → PRes (List Char × List Tok)
+  | [], _, _ => .error "Unbalanced parens"
+  | t :: r, depth, parts =>
+    match t.typ with
+    | .eof => .error "Unbalanced parens"
+    | .lparen => collectParen r (depth + 1) (t.val :: parts)
+    | .rparen =>
+      if depth = 0 then .ok ((parts.reverse).flatten, r)
+      else collectParen r (depth - 1) (t.val :: parts)
+    | _ => collectParen r depth (t.val :: parts)
+
+/-- the value `Parser.initializer` makes of one token (`none`: parse error
+    "Expected a value after '='") -/
+def initVal (t : Tok) : Option AVal :=
+  match t.typ with
+  | .real => some (.flt t.val)
+  | .integer => some (.int t.val)
+  | .dquote => some (.str t.val)
+  | .squote => some (.str t.val)
+  | .ident => some (.str t.val)
+  | _ => none
+
+/-- `Parser.initializer` -/
+def initializer (ts : List Tok) : Option (AVal × List Tok) :=
+  match initVal (cur ts) with
+  | some v => some (v, ts.tail)
+  | none => none
+
+/-- `Parser.attribute(attrs)`; attribute names are interned by `intern`.
+    `fuel` = number of tokens (each round consumes at least two). -/
+def parseAttr (intern : List Char → Nat) : Nat → List Tok → Dict AVal → PRes (Dict AVal × List Tok)
+  | 0, ts, attrs => .ok (attrs, ts)
+  | fuel + 1, ts, attrs =>
+    match ts with
+    | ⟨.plus, _⟩ :: r =>
+      match r with
+      | ⟨.ident, name⟩ :: r2 =>
+        match r2 with
+        | ⟨.lparen, _⟩ :: r3 =>
+          match collectParen r3 0 [] with
+          | .ok (text, r4) => parseAttr intern fuel r4 (dset attrs (intern name) (.str text))
+          | .error e => .error e
+        | ⟨.equals, _⟩ :: r3 =>
+          match initializer r3 with
+          | some (v, r4) => parseAttr intern fuel r4 (dset attrs (intern name) v)
+          | none => .error "Expected a value after '='"
+        | _ => parseAttr intern fuel r2 (dset attrs (intern name) .tru)
+      | _ => .error "Expected ID"
+    | _ => .ok (attrs, ts)
+
+def parseAttrs (intern : List Char → Nat) (ts : List Tok) (attrs : Dict AVal) :=
+  parseAttr intern ts.length ts attrs
+
+/-- `arg.attrs.update(attrs[name])` / `ast.attrs.update(fattrs)` -/
+def mergeAttrs (parsed : Dict AVal) (yaml : List (Nat × AVal)) : Dict AVal := dupdate parsed yaml
+
+/-! ## `--option name=value` and `--language` -/
+
+inductive CVal where
+  | bool (b : Bool)
+  | int (n : Nat)
+  | str (s : List Char)
+deriving Repr, DecidableEq
+
+def isAsciiDigit (c : Char) : Bool := '0' ≤ c ∧ c ≤ '9'
+
+/-- `int(text)` for a string of ASCII digits -/
+def digitsToNat (s : List Char) : Nat := s.foldl (fun acc c => acc * 10 + (c.toNat - 48)) 0
+
+/-- `"true"/"True"` -> `True`, `"false"/"False"` -> `False`, a non-empty
+    string of digits (`str.isdigit()`, modelled on ASCII digits) -> `int`,
+    else the text -/
+def coerce (s : List Char) : CVal :=
+  if s = "true".toList ∨ s = "True".toList then .bool true
+  else if s = "false".toList ∨ s = "False".toList then .bool false
+  else if s ≠ [] ∧ s.all isAsciiDigit then .int (digitsToNat s)
+  else .str s
+
+/-- `option.split("=", 1)`; `none` = `ValueError` (no `=`: one element cannot
+    be unpacked into `name, value`) -/
+def splitEq : List Char → Option (List Char × List Char)
+  | [] => none
+  | c :: r => if c = '=' then some ([], r) else
+      match splitEq r with
+      | none => none
+      | some (a, b) => some (c :: a, b)
+
+/-- the loop building `cmdoptions` -/
+def cmdOptions (intern : List Char → Nat) : List (List Char) → Dict CVal → Option (Dict CVal)
+  | [], acc => some acc
+  | o :: r, acc =>
+    match splitEq o with
+    | none => none
+    | some (n, v) => cmdOptions intern r (dset acc (intern n) (coerce v))
+
+/-- the `options` entry of `allinput` after reading the YAML files -/
+inductive YOpts where
+  | absent                       -- no `options:` key
+  | null                         -- `options:` with nothing under it (`None`)
+  | dict (d : Dict CVal)
+deriving Repr, DecidableEq
+
+inductive MRes where
+  | ok (o : YOpts) (language : Option (List Char))
+  | valueError                   -- `--option foo` without `=`
+  | attributeError               -- `None.update(...)`
+deriving Repr, DecidableEq
+
+/-- `main_with_args`: "Add options from command line last" and `--language`.
+    `lang = none` or `some []` is falsy. -/
+def mergeCli (intern : List Char → Nat) (yopts : YOpts) (ylang : Option (List Char))
+    (opts : List (List Char)) (lang : Option (List Char)) : MRes :=
+  let lang' := match lang with
+    | some (c :: l) => some (c :: l)
+    | _ => ylang
+  match opts with
+  | [] => .ok yopts lang'
+  | _ =>
+    match cmdOptions intern opts [] with
+    | none => .valueError
+    | some cmd =>
+      match yopts with
+      | .absent => .ok (.dict cmd) lang'
+      | .null => .attributeError
+      | .dict d => .ok (.dict (dupdate d cmd)) lang'
+
+/-! ## a format field given directly or derived from its template option
+
+`eval_template(NAME)`: set `fmt.NAME` from the option `NAME..._template`
+unless `NAME` is already local (written by the user under `format:`); some
+fields are post-processed afterwards (`F_module_name` is lower-cased). -/
+
+def evalTemplateD {β} (d : Dict β) (k : Nat) (fromTemplate : β) : Dict β :=
+  if dhas d k then d else dset d k fromTemplate
+
+def postD {β} (d : Dict β) (k : Nat) (post : β → β) : Dict β :=
+  match dget d k with
+  | some v => dset d k (post v)
+  | none => d
+
+/-- `LibraryNode.default_format`: `update(format)`, `eval_template`, then post-process -/
+def libraryField {β} (d : Dict β) (userFormat : List (Nat × β)) (k : Nat) (fromTemplate : β) (post : β → β) : Dict β :=
+  postD (evalTemplateD (dupdate d userFormat) k fromTemplate) k post
+
+/-- `NamespaceNode.default_format`: `eval_template`, `update(format)`, then post-process
+    (before the fix 50bd4cd the post-processing came before the update) -/
+def namespaceField {β} (d : Dict β) (userFormat : List (Nat × β)) (k : Nat) (fromTemplate : β) (post : β → β) : Dict β :=
+  postD (dupdate (evalTemplateD d k fromTemplate) userFormat) k post
+
+/-- the order before the fix: a value written under `format:` escaped the post-processing -/
+def namespaceFieldOld {β} (d : Dict β) (userFormat : List (Nat × β)) (k : Nat) (fromTemplate : β) (post : β → β) : Dict β :=
+  dupdate (postD (evalTemplateD d k fromTemplate) k post) userFormat
+
+/-! ## search path (`--path`, `create_wrapper(path=...)`) -/
+
+/-- `pth.split(":")` on code points -/
+def splitColon : List Nat → List (List Nat)
+  | [] => [[]]
+  | c :: r =>
+    if c = 58 then [] :: splitColon r
+    else match splitColon r with
+      | [] => [[c]]
+      | h :: t => (c :: h) :: t
+
+/-- `main_with_args`: "append all paths together" (an empty list means `["."]`) -/
+def searchPath (path : List (List Nat)) : List (List Nat) :=
+  match path with
+  | [] => [[46]]
+  | _ => path.flatMap splitColon
+
+/-- argparse `action="append"`: occurrences are appended to (a copy of) the default list -/
+def argparseAppend (dflt given : List (List Nat)) : List (List Nat) := dflt ++ given
+
+end Shroud.Scope
